@@ -24,3 +24,18 @@ Definition c08_check (c : c08_case) : bool :=
          cr_coll_creator cr; cr_coll_contract_admin cr; cr_trading cr] (c8_wiring c) &&
       bal_agrees b (c8_bal1 c)
   end.
+
+(* a later UpdatePerAddressLimit probe on a minter created through factory kind k *)
+Inductive c08_any :=
+| CCreate (c : c08_case)
+| CUpdatePal (k : fkind) (flex is_admin no_funds : bool) (l n maxpal : N) (ok : bool) (pal_after : N) (pal_before : N).
+
+Definition c08_any_check (c : c08_any) : bool :=
+  match c with
+  | CCreate x => c08_check x
+  | CUpdatePal k flex adm nof l n maxpal ok after before =>
+      match update_pal k flex adm nof l n maxpal with
+      | Ok r => ok && (r =? after)
+      | Err => negb ok && (after =? before)
+      end
+  end.
